@@ -15,7 +15,8 @@ from typing import Any, Dict, Iterable, Iterator, List, Optional, Sequence, Tupl
 
 from pydoctor import driver, model
 
-SCRATCH_BASE = '/dev/shm' if os.path.isdir('/dev/shm') and os.access('/dev/shm', os.W_OK) else tempfile.gettempdir()
+# the command line front end creates one scratch root per run (VERIF_SCRATCH) and removes it when the run ends, however it ends
+SCRATCH_BASE = os.environ.get('VERIF_SCRATCH') or ('/dev/shm' if os.path.isdir('/dev/shm') and os.access('/dev/shm', os.W_OK) else tempfile.gettempdir())
 REPO = os.path.realpath(os.environ.get('VERIF_REPO', '/repo'))
 
 FileMap = Dict[str, Union[str, bytes]]
